@@ -24,11 +24,21 @@ use sy::transport::{TransferResult, Transport};
 // configuration of one worker = one `create()` call (mirrors `WorkerCfg` of the model)
 // ------------------------------------------------------------------------------------------------
 
+#[derive(Clone, Copy, Debug, PartialEq, Eq, Hash)]
+pub enum Act { Create, Update, Skip }
+
 #[derive(Clone, Debug, PartialEq, Eq, Hash)]
 pub struct WCfg {
     pub inode: u64,
     pub linked: bool,
+    pub action: Act,
+    /// update only: the destination is at or above the delta gate (temp file + rename)
+    pub large: bool,
+    /// destination file before the run: (inode id >= OLD_INO, content id)
+    pub dst0: Option<(u64, u64)>,
+    /// yields / failure of create_dir_all (create) resp. remove (update)
     pub y_mkdir: u32,
+    /// yields / failure of copy_file (create) resp. sync_file_with_delta (update)
     pub y_copy: u32,
     pub y_link: u32,
     pub f_mkdir: bool,
@@ -36,13 +46,24 @@ pub struct WCfg {
     pub f_link: bool,
 }
 
+/// inode ids of files that exist before the run (ids below are the fresh inodes of the workers)
+const OLD_INO: u64 = 100;
+
 impl WCfg {
     fn new(inode: u64, linked: bool) -> Self {
-        WCfg { inode, linked, y_mkdir: 0, y_copy: 0, y_link: 0, f_mkdir: false, f_copy: false, f_link: false }
+        WCfg { inode, linked, action: Act::Create, large: false, dst0: None, y_mkdir: 0, y_copy: 0, y_link: 0, f_mkdir: false, f_copy: false, f_link: false }
+    }
+    fn update(inode: u64, linked: bool, large: bool, old_ino: u64, old_content: u64) -> Self {
+        WCfg { action: Act::Update, large, dst0: Some((old_ino, old_content)), ..WCfg::new(inode, linked) }
+    }
+    fn skip(inode: u64, linked: bool, old_ino: u64) -> Self {
+        WCfg { action: Act::Skip, dst0: Some((old_ino, inode)), ..WCfg::new(inode, linked) }
     }
     fn wire(&self) -> String {
-        format!("{},{},{},{},{},{},{},0,{}", self.inode, self.linked as u8, self.y_mkdir, self.y_copy, self.y_link,
-                self.f_mkdir as u8, self.f_copy as u8, self.f_link as u8)
+        let a = match self.action { Act::Create => "c", Act::Update => "u", Act::Skip => "s" };
+        let d = match self.dst0 { Some((i, c)) => format!("{},{}", i, c), None => "-,-".into() };
+        format!("{},{},{},{},{},{},{},{},{},{},0,{}", self.inode, self.linked as u8, a, self.large as u8, d,
+                self.y_mkdir, self.y_copy, self.y_link, self.f_mkdir as u8, self.f_copy as u8, self.f_link as u8)
     }
     fn any_fault(&self) -> bool { self.f_mkdir || self.f_copy || self.f_link }
 }
@@ -82,12 +103,28 @@ struct Mock {
     st: Mutex<MockState>,
 }
 
+/// Directory of token files: `std::fs::Metadata` cannot be constructed, so the mock answers
+/// `metadata(path)` with the metadata of a real, empty file that stands for the mock inode the path
+/// names — two mock paths are the same inode iff their tokens are (that is all `same_inode` reads).
+static TOKENS: std::sync::OnceLock<PathBuf> = std::sync::OnceLock::new();
+
+fn token(ino: u64) -> PathBuf {
+    let dir = TOKENS.get().expect("token dir");
+    let p = dir.join(format!("ino_{}", ino));
+    if !p.exists() { let _ = std::fs::write(&p, b""); }
+    p
+}
+
 impl Mock {
     fn new(cfg: &[WCfg]) -> Self {
         let mut by_dir = HashMap::new();
         let mut by_dst = HashMap::new();
-        for w in 0..cfg.len() { by_dir.insert(dst_dir(w), w); by_dst.insert(dst_path(w), w); }
-        Mock { cfg: cfg.to_vec(), by_dir, by_dst, st: Mutex::new(MockState::default()) }
+        let mut st = MockState::default();
+        for w in 0..cfg.len() {
+            by_dir.insert(dst_dir(w), w); by_dst.insert(dst_path(w), w);
+            if let Some(f) = cfg[w].dst0 { st.files.insert(dst_path(w), f); }
+        }
+        Mock { cfg: cfg.to_vec(), by_dir, by_dst, st: Mutex::new(st) }
     }
     fn log(&self, s: String) { self.st.lock().unwrap().log.push(s); }
     fn fail(op: &str) -> SyncError { SyncError::Io(std::io::Error::other(format!("mock-fail:{}", op))) }
@@ -98,7 +135,36 @@ impl Mock {
 impl Transport for Mock {
     async fn scan(&self, _path: &Path) -> SyResult<Vec<FileEntry>> { Self::unsupported("scan") }
     async fn exists(&self, path: &Path) -> SyResult<bool> { Ok(self.st.lock().unwrap().files.contains_key(path)) }
-    async fn metadata(&self, _path: &Path) -> SyResult<std::fs::Metadata> { Self::unsupported("metadata") }
+    async fn metadata(&self, path: &Path) -> SyResult<std::fs::Metadata> {
+        let ino = self.st.lock().unwrap().files.get(path).map(|f| f.0);
+        match ino {
+            Some(i) => std::fs::metadata(token(i)).map_err(SyncError::Io),
+            None => Err(SyncError::Io(std::io::Error::new(std::io::ErrorKind::NotFound, "mock-enoent:metadata"))),
+        }
+    }
+    /// the model's `syncOp`: full copy when the destination vanished, fresh inode at or above the
+    /// delta gate (temp file + rename) or when a single-named source meets a multiply-linked
+    /// destination (`break_unshared_hard_link`), otherwise a write through the existing inode
+    async fn sync_file_with_delta(&self, _source: &Path, dest: &Path) -> SyResult<TransferResult> {
+        let w = match self.by_dst.get(dest) { Some(w) => *w, None => return Self::unsupported("sync-path") };
+        for _ in 0..self.cfg[w].y_copy { self.log("y-sync".into()); YieldOnce(false).await; }
+        if self.cfg[w].f_copy { self.log("err-sync".into()); return Err(Self::fail("sync")); }
+        let mut st = self.st.lock().unwrap();
+        let content = self.cfg[w].inode;
+        match st.files.get(dest).cloned() {
+            None => { st.files.insert(dest.to_path_buf(), (w as u64, content)); }
+            Some((ino, _)) => {
+                let shared = st.files.iter().any(|(p, f)| p != dest && f.0 == ino);
+                if self.cfg[w].large || (!self.cfg[w].linked && shared) {
+                    st.files.insert(dest.to_path_buf(), (w as u64, content));
+                } else {
+                    for f in st.files.values_mut() { if f.0 == ino { f.1 = content; } }
+                }
+            }
+        }
+        st.log.push("ok-sync".into());
+        Ok(TransferResult::new(1))
+    }
     async fn create_dir_all(&self, path: &Path) -> SyResult<()> {
         let w = match self.by_dir.get(path) { Some(w) => *w, None => return Self::unsupported("mkdir-path") };
         for _ in 0..self.cfg[w].y_mkdir { self.log("y-mkdir".into()); YieldOnce(false).await; }
@@ -115,7 +181,15 @@ impl Transport for Mock {
         st.log.push("ok-copy".into());
         Ok(TransferResult::new(1))
     }
-    async fn remove(&self, _path: &Path, _is_dir: bool) -> SyResult<()> { Self::unsupported("remove") }
+    async fn remove(&self, path: &Path, _is_dir: bool) -> SyResult<()> {
+        let w = match self.by_dst.get(path) { Some(w) => *w, None => return Self::unsupported("remove-path") };
+        for _ in 0..self.cfg[w].y_mkdir { self.log("y-remove".into()); YieldOnce(false).await; }
+        let mut st = self.st.lock().unwrap();
+        if self.cfg[w].f_mkdir || !st.files.contains_key(path) { st.log.push("err-remove".into()); return Err(Self::fail("remove")); }
+        st.files.remove(path);
+        st.log.push("ok-remove".into());
+        Ok(())
+    }
     async fn create_hardlink(&self, source: &Path, dest: &Path) -> SyResult<()> {
         let w = match self.by_dst.get(dest) { Some(w) => *w, None => return Self::unsupported("link-path") };
         for _ in 0..self.cfg[w].y_link { self.log("y-link".into()); YieldOnce(false).await; }
@@ -168,7 +242,15 @@ fn run_real(cfg: &[WCfg], sched: &[usize]) -> RealRun {
     let trs: Vec<_> = (0..n).map(|_| transferrer(&mock, true, &handle)).collect();
     type Fut<'a> = Pin<Box<dyn Future<Output = SyResult<Option<TransferResult>>> + 'a>>;
     let mut futs: Vec<Option<Fut<'_>>> = Vec::with_capacity(n);
-    for w in 0..n { futs.push(Some(Box::pin(trs[w].create(&entries[w], &dests[w])))); }
+    let mut done = vec![false; n];
+    for w in 0..n {
+        match cfg[w].action {
+            Act::Create => futs.push(Some(Box::pin(trs[w].create(&entries[w], &dests[w])))),
+            Act::Update => futs.push(Some(Box::pin(trs[w].update(&entries[w], &dests[w])))),
+            // a skipped path has no task: it only is a name in the destination
+            Act::Skip => { futs.push(None); done[w] = true; }
+        }
+    }
     let waker = Waker::noop();
     let mut cx = Context::from_waker(waker);
     let by_dst: HashMap<PathBuf, usize> = (0..n).map(|w| (dst_path(w), w)).collect();
@@ -188,7 +270,6 @@ fn run_real(cfg: &[WCfg], sched: &[usize]) -> RealRun {
         join_or(v.into_iter().map(|x| x.1).collect(), ",")
     };
     let mut recs = Vec::new();
-    let mut done = vec![false; n];
     for &w in sched {
         if done[w] { continue; }
         let log_before = mock.st.lock().unwrap().log.len();
@@ -284,6 +365,17 @@ fn explore(cfg: &[WCfg], prefix: &mut Vec<usize>, out: &mut Vec<(Vec<usize>, boo
     prefix.truncate(keep);
 }
 
+/// `Cfg.DstOk` of the model: names of one pre-run destination inode belong to one source inode
+/// (and show one content)
+fn dst_ok(cfg: &[WCfg]) -> bool {
+    for a in cfg { for b in cfg {
+        if let (Some(x), Some(y)) = (a.dst0, b.dst0) {
+            if x.0 == y.0 && (a.inode != b.inode || x.1 != y.1) { return false; }
+        }
+    } }
+    true
+}
+
 fn hang_signature(cfg: &[WCfg]) -> &'static str {
     if cfg.iter().any(|c| c.linked && (c.f_mkdir || c.f_copy)) { "C13/hang-owner-failure-leaves-waiters" }
     else if cfg.iter().any(|c| c.any_fault()) { "C13/hang-after-link-failure" }
@@ -327,23 +419,37 @@ fn check_schedule(rep: &mut Report, drv: &mut Driver, cfg: &[WCfg], sched: &[usi
             json!({"workers": cfg_wire(cfg), "schedule": sched_wire(&full), "pending": (0..cfg.len()).filter(|w| !real.done[*w]).collect::<Vec<_>>(),
                    "map": real.map, "trace": real.recs.iter().map(|r| r.show()).collect::<Vec<_>>()}));
     }
-    // ---- O: link structure among the paths whose create() returned Ok ----
+    // ---- O: link structure among the paths whose create()/update() returned Ok; skipped names keep their content ----
     {
         let files: HashMap<usize, (String, String)> = real.dst.split(',').filter(|s| *s != "-").filter_map(|e| {
             let (w, rest) = e.split_once('=')?; let (ino, c) = rest.split_once('/')?; Some((w.parse().ok()?, (ino.to_string(), c.to_string())))
         }).collect();
+        // with foreign links in the pre-run destination the current code is known to write through them
+        let sig = if dst_ok(cfg) { "C13/link-structure-differs/mock" } else { "C13/update-writes-through-foreign-link" };
         let ok: Vec<usize> = real.recs.iter().filter(|r| r.out == "ok").map(|r| r.w).collect();
+        let mut reported = false;
         for &a in &ok { for &b in &ok {
             let (fa, fb) = (files.get(&a), files.get(&b));
             let bad = match (fa, fb) {
                 (Some(x), Some(y)) => ((x.0 == y.0) != (cfg[a].inode == cfg[b].inode)) || x.1 != cfg[a].inode.to_string(),
                 _ => true,
             };
-            if bad && a <= b {
-                rep.oracle_fail("C13/link-structure-differs/mock", "paths created Ok do not share an inode exactly when their sources do (or content differs)",
+            if bad && a <= b && !reported {
+                reported = true;
+                rep.oracle_fail(sig, "paths transferred Ok do not share an inode exactly when their sources do (or content differs)",
                     json!({"workers": cfg_wire(cfg), "schedule": sched_wire(&full), "a": a, "b": b, "dst": real.dst}));
             }
         } }
+        for w in 0..cfg.len() {
+            if cfg[w].action == Act::Skip && !reported {
+                let want = cfg[w].dst0.map(|f| f.1.to_string());
+                if files.get(&w).map(|f| f.1.clone()) != want {
+                    reported = true;
+                    rep.oracle_fail(sig, "the content of a skipped (up-to-date) destination name changed during the run",
+                        json!({"workers": cfg_wire(cfg), "schedule": sched_wire(&full), "skipped": w, "dst": real.dst}));
+                }
+            }
+        }
     }
 
     // ---- K: the model's poll semantics, record by record ----
@@ -432,9 +538,16 @@ fn classes(s: &BTreeMap<String, (u64, Vec<u8>)>) -> String {
 struct SyOut { timed_out: bool, status: Option<i32>, wall: Duration }
 
 fn run_sy(work: &Path, src: &Path, dst: &Path, extra: &[&str], limit: Duration) -> SyOut {
+    run_sy_env(work, src, dst, extra, &[], limit)
+}
+
+fn run_sy_env(work: &Path, src: &Path, dst: &Path, extra: &[&str], env: &[(&str, &str)], limit: Duration) -> SyOut {
     let home = work.join("home");
     std::fs::create_dir_all(&home).unwrap();
     let mut cmd = std::process::Command::new(sy_bin());
+    for (k, v) in env { cmd.env(k, v); }
+    cmd.env_remove("SY_VERIF_FORCE_COW").env_remove("SY_VERIF_BLOCK_SIZE");
+    if env.is_empty() { cmd.env_remove("SY_VERIF_DELTA_THRESHOLD"); }
     cmd.arg(src).arg(dst).arg("-H").arg("-q").args(extra)
         .env("HOME", &home).env("XDG_CACHE_HOME", home.join("cache")).env("XDG_CONFIG_HOME", home.join("config"))
         .env("RUST_BACKTRACE", "0").env_remove("RUST_LOG")
@@ -548,6 +661,79 @@ fn binary_level(rep: &mut Report, rng: &mut Rng, work: &Path, thorough: bool) {
         let _ = std::fs::remove_dir_all(&root);
     }
 
+    // ---- regrouped sources (deterministic): what the current code still gets wrong, and what it gets right ----
+    {
+        let mk = |name: &str| -> (PathBuf, PathBuf, PathBuf) {
+            let root = work.join(name);
+            let _ = std::fs::remove_dir_all(&root);
+            let (src, dst) = (root.join("s"), root.join("d"));
+            std::fs::create_dir_all(&src).unwrap();
+            std::fs::create_dir_all(&dst).unwrap();
+            (root, src, dst)
+        };
+        // (1) x,y,z one group, synced; then y,z become a NEW group (new content), x unchanged: deterministic —
+        //     both names of the new group exist in the destination, so its owner is an update in place
+        let (root, src, dst) = mk("regroup-foreign");
+        std::fs::write(src.join("x"), b"xx1\n").unwrap();
+        std::fs::hard_link(src.join("x"), src.join("y")).unwrap();
+        std::fs::hard_link(src.join("x"), src.join("z")).unwrap();
+        set_mtime(&src.join("x"), 1_500_000_000);
+        let o1 = run_sy(&root, &src, &dst, &["-j", "1"], generous);
+        std::fs::remove_file(src.join("y")).unwrap();
+        std::fs::remove_file(src.join("z")).unwrap();
+        std::fs::write(src.join("y"), b"yy2\n").unwrap();
+        std::fs::hard_link(src.join("y"), src.join("z")).unwrap();
+        set_mtime(&src.join("y"), 1_600_000_000);
+        let o2 = run_sy(&root, &src, &dst, &["-j", "1"], generous);
+        rep.case(b"regroup-foreign", true);
+        rep.tag("bin:regroup-foreign-link");
+        if o1.timed_out || o2.timed_out { rep.skipped.push("regroup-foreign: no result within 90 s".into()); }
+        else {
+            judge_structure(rep, &src, &dst, "C13/update-writes-through-foreign-link",
+                "names that left their group in the source (and still have several names) are updated in place through the destination inode they still share with the old group: the unchanged, skipped name receives their content",
+                json!({"scenario": "x,y,z linked and synced; y,z replaced by a new file with two names; sy -H again", "flags": "-H -q -j1"}));
+        }
+        let _ = std::fs::remove_dir_all(&root);
+        // (2) the same with a single-named y: the stale link is broken, x keeps its content (88af04c)
+        let (root, src, dst) = mk("regroup-single");
+        std::fs::write(src.join("x"), b"xx1\n").unwrap();
+        std::fs::hard_link(src.join("x"), src.join("y")).unwrap();
+        set_mtime(&src.join("x"), 1_500_000_000);
+        let o1 = run_sy(&root, &src, &dst, &["-j", "1"], generous);
+        std::fs::remove_file(src.join("y")).unwrap();
+        std::fs::write(src.join("y"), b"yy2\n").unwrap();
+        set_mtime(&src.join("y"), 1_600_000_000);
+        let o2 = run_sy(&root, &src, &dst, &["-j", "1"], generous);
+        rep.case(b"regroup-single", true);
+        rep.tag("bin:regroup-single-named");
+        if !(o1.timed_out || o2.timed_out) {
+            judge_structure(rep, &src, &dst, "C13/link-structure-differs/after-link-broken-in-source",
+                "after a link was broken in the source (the changed name has a single name now) the destination's structure or contents differ",
+                json!({"scenario": "x,y linked and synced; y replaced by an independent file; sy -H again"}));
+        }
+        let _ = std::fs::remove_dir_all(&root);
+        // (3) regrouped with equal size and mtime: every name is skipped, the destination keeps the old structure
+        for (name, what) in [("skip-broken", "group broken up"), ("skip-formed", "group formed")] {
+            let (root, src, dst) = mk(name);
+            std::fs::write(src.join("a"), b"v1\n").unwrap();
+            if name == "skip-broken" { std::fs::hard_link(src.join("a"), src.join("b")).unwrap(); } else { std::fs::write(src.join("b"), b"v1\n").unwrap(); }
+            set_mtime(&src.join("a"), 1_500_000_000); set_mtime(&src.join("b"), 1_500_000_000);
+            let o1 = run_sy(&root, &src, &dst, &["-j", "1"], generous);
+            std::fs::remove_file(src.join("b")).unwrap();
+            if name == "skip-broken" { std::fs::write(src.join("b"), b"v1\n").unwrap(); } else { std::fs::hard_link(src.join("a"), src.join("b")).unwrap(); }
+            set_mtime(&src.join("a"), 1_500_000_000); set_mtime(&src.join("b"), 1_500_000_000);
+            let o2 = run_sy(&root, &src, &dst, &["-j", "1"], generous);
+            rep.case(name.as_bytes(), true);
+            rep.tag("bin:regroup-equal-size-mtime-skipped");
+            if !(o1.timed_out || o2.timed_out) {
+                judge_structure(rep, &src, &dst, "C13/skipped-members-keep-stale-structure",
+                    "a hard-link group broken up or formed in the source with equal size and mtime is skipped altogether: the destination keeps the old inode structure",
+                    json!({"scenario": what, "flags": "-H -q -j1"}));
+            }
+            let _ = std::fs::remove_dir_all(&root);
+        }
+    }
+
     // ---- thread-level stress (sampled, reported as such): many small groups, all workers ----
     {
         let runs = if thorough { 12 } else { 3 };
@@ -597,19 +783,22 @@ fn binary_level(rep: &mut Report, rng: &mut Rng, work: &Path, thorough: bool) {
         if !judge_structure(rep, &src, &dst, "C13/link-structure-differs", "after a fresh `sy -H` the destination's inode classes or contents differ from the source's", input.clone()) {
             let _ = std::fs::remove_dir_all(&root); continue;
         }
-        // -- update 1: new content for the first group (all its names change, they share the inode)
+        // -- update A: new content for the first group (all its names change, they share the inode)
         let first = src.join(&groups[0][0]);
-        let mut data = std::fs::read(&first).unwrap();
-        if data.is_empty() { data.push(7); } else { let k = data.len() / 2; data[k] ^= 0x5a; data.push(1); }
-        { use std::io::Write; let mut f = std::fs::OpenOptions::new().write(true).truncate(true).open(&first).unwrap(); f.write_all(&data).unwrap(); }
-        set_mtime(&first, 1_600_000_000 + t as i64);
+        let rewrite = |stamp: i64| {
+            let mut data = std::fs::read(&first).unwrap();
+            if data.is_empty() { data.push(7); } else { let k = data.len() / 2; data[k] ^= 0x5a; data.push(1); }
+            { use std::io::Write; let mut f = std::fs::OpenOptions::new().write(true).truncate(true).open(&first).unwrap(); f.write_all(&data).unwrap(); }
+            set_mtime(&first, stamp);
+        };
+        rewrite(1_600_000_000 + t as i64);
         let o = run_sy(&root, &src, &dst, &["-j", j], generous);
         if o.timed_out { rep.skipped.push(format!("binary level tree {} update: no result within 90 s", t)); let _ = std::fs::remove_dir_all(&root); continue; }
         rep.case(format!("tree{}:update-content", t).as_bytes(), true);
         if big {
             rep.tag("bin:update-content-large");
             judge_structure(rep, &src, &dst, "C13/update-splits-link-group",
-                "updating a hard-linked file at or above the 10 MiB delta threshold replaces every path by its own temp+rename copy: the destination group is split",
+                "after the content update of a hard-linked group at or above the 10 MiB delta threshold the destination group is split (or contents differ)",
                 json!({"input": input, "update": "content of first (>= 10 MiB) group changed"}));
         } else {
             rep.tag("bin:update-content-small");
@@ -617,7 +806,33 @@ fn binary_level(rep: &mut Report, rng: &mut Rng, work: &Path, thorough: bool) {
                 "after updating the content of a link group below the delta threshold the destination's structure differs",
                 json!({"input": input, "update": "content of first group changed"}));
         }
-        // -- update 2: a new name joins the (already synced) first group
+        // -- update B: the same through the temp-file path, reached with small files by hook H1
+        if !big {
+            rewrite(1_610_000_000 + t as i64);
+            let o = run_sy_env(&root, &src, &dst, &["-j", j], &[("SY_VERIF_DELTA_THRESHOLD", "1")], generous);
+            if !o.timed_out {
+                rep.case(format!("tree{}:update-content-h1", t).as_bytes(), true);
+                rep.tag("bin:update-content-large-h1");
+                judge_structure(rep, &src, &dst, "C13/update-splits-link-group",
+                    "after the content update of a hard-linked group through the temp-file + rename path (delta gate lowered by SY_VERIF_DELTA_THRESHOLD) the destination group is split (or contents differ)",
+                    json!({"input": input, "update": "content of first group changed", "env": "SY_VERIF_DELTA_THRESHOLD=1"}));
+            }
+        }
+        // -- update C: content change and a new name of the group in one run (updates and a create share the map)
+        if !big {
+            rewrite(1_620_000_000 + t as i64);
+            std::fs::hard_link(&first, src.join("mixed.dat")).unwrap();
+            let h1 = t % 2 == 1;
+            let o = if h1 { run_sy_env(&root, &src, &dst, &["-j", j], &[("SY_VERIF_DELTA_THRESHOLD", "1")], generous) } else { run_sy(&root, &src, &dst, &["-j", j], generous) };
+            if !o.timed_out {
+                rep.case(format!("tree{}:update-mixed", t).as_bytes(), true);
+                rep.tag(if h1 { "bin:update-content-and-new-link-h1" } else { "bin:update-content-and-new-link" });
+                judge_structure(rep, &src, &dst, "C13/link-structure-differs/after-update-with-new-link",
+                    "after a run that updates the members of a group and creates a new member the destination's structure differs",
+                    json!({"input": input, "update": "content of first group changed and mixed.dat linked to it", "h1": h1}));
+            }
+        }
+        // -- update D: a new name joins the (already synced, therefore skipped) first group
         if !big {
             let extra = src.join("joined.dat");
             std::fs::hard_link(&first, &extra).unwrap();
@@ -638,15 +853,20 @@ fn binary_level(rep: &mut Report, rng: &mut Rng, work: &Path, thorough: bool) {
 
 pub fn run(tier: &str, seed: u64, driver_path: &str, work: &Path) -> Report {
     let mut rep = Report::default();
-    rep.rule = "mock level: one case = (worker configuration, complete poll schedule of the real create() futures); exhaustive over every poll order for 2 workers x 1 group x every single failure (quick) and 3 workers / 2 groups x every pair of failures (thorough), plus seeded random configurations of 3-6 workers; non-trivial = at least two hard-link candidates and at least one Pending poll; distinct = distinct (configuration, schedule). binary level: A11 scenario, generated trees with link groups (fresh create, content update, new link joining a group); non-trivial = a group of >= 2 links".into();
+    rep.rule = "mock level: one case = (worker configuration [each path created, updated or skipped; pre-run destination inodes], complete poll schedule of the real create()/update() futures); exhaustive over every poll order for 2 workers x 1 group x every single failure (quick) and 3 workers / 2 groups x every pair of failures (thorough), plus seeded random configurations of 3-6 workers; non-trivial = at least two hard-link candidates and at least one Pending poll; distinct = distinct (configuration, schedule). binary level: A11 scenario, regrouped-source scenarios, generated trees with link groups (fresh create, content update below / at the delta gate / through the temp-file path via hook H1, update together with a new member, new link joining a skipped group); non-trivial = a group of >= 2 links".into();
     let thorough = tier == "thorough";
     let mut rng = Rng::new(seed);
     let mut drv = Driver::spawn(driver_path).expect("spawn sydriver");
     std::fs::create_dir_all(work).unwrap();
+    let tokens = work.join("tokens");
+    std::fs::create_dir_all(&tokens).unwrap();
+    let _ = TOKENS.set(tokens);
     let mut stats = Stats { schedules: 0, polls: 0, hangs: 0, pinned_like: 0 };
 
     // ---- malformed requests are rejected ----
-    for bad in ["hl.run repaired 2 7,1,0,0,0,0,0,0,0 0", "hl.run fixed 1 7,1,0,0,0,0,0,0,0 0", "hl.run repaired 1 7,1,0,0,0,0,0,0,0 5", "hl.run repaired 1 7,2,0,0,0,0,0,0,0 0", "hl.poll 0"] {
+    for bad in ["hl.run repaired 2 7,1,c,0,-,-,0,0,0,0,0,0,0 0", "hl.run fixed 1 7,1,c,0,-,-,0,0,0,0,0,0,0 0",
+                "hl.run repaired 1 7,1,c,0,-,-,0,0,0,0,0,0,0 5", "hl.run repaired 1 7,2,c,0,-,-,0,0,0,0,0,0,0 0",
+                "hl.run repaired 1 7,1,x,0,-,-,0,0,0,0,0,0,0 0", "hl.run repaired 1 7,1,0,0,0,0,0,0,0 0", "hl.poll 0"] {
         let a = drv.ask(bad);
         rep.tag("malformed-request");
         if a != "bad-op" { rep.disagree(json!({"what": "driver accepted a malformed request", "request": bad, "answer": a})); }
@@ -684,6 +904,50 @@ pub fn run(tier: &str, seed: u64, driver_path: &str, work: &Path) -> Report {
         exhaustive(&mut rep, &mut drv, &cfg, "x3", &mut stats, 20_000);
     }
 
+    // ---- updates: every member of a group updated in one run (a68466f) ----
+    for large in [false, true] {
+        for shared in [true, false] {
+            for fs in fault_sets(2, 1) {
+                // two names of inode 7, stale content 1; one destination inode (shared) or two files (split earlier)
+                let mut cfg = vec![WCfg::update(7, true, large, OLD_INO, 1), WCfg::update(7, true, large, if shared { OLD_INO } else { OLD_INO + 1 }, 1)];
+                cfg[0].y_copy = 1; cfg[1].y_copy = 1; cfg[1].y_mkdir = 1;
+                apply_faults(&mut cfg, &fs);
+                exhaustive(&mut rep, &mut drv, &cfg, "u2", &mut stats, 20_000);
+            }
+        }
+        // two updated names and a new one joining the group in the same run
+        for fs in fault_sets(3, 1) {
+            let mut cfg = vec![WCfg::update(7, true, large, OLD_INO, 1), WCfg::update(7, true, large, OLD_INO, 1), WCfg::new(7, true)];
+            cfg[0].y_copy = 1; cfg[2].y_copy = 1;
+            apply_faults(&mut cfg, &fs);
+            exhaustive(&mut rep, &mut drv, &cfg, "u2+create", &mut stats, 20_000);
+        }
+        // three updated names of one inode; an ordinary update next to them
+        {
+            let mut cfg = vec![WCfg::update(7, true, large, OLD_INO, 1), WCfg::update(7, true, large, OLD_INO, 1), WCfg::update(7, true, large, OLD_INO, 1), WCfg::update(9, false, large, OLD_INO + 5, 2)];
+            cfg[0].y_copy = 1; cfg[3].y_copy = 1;
+            exhaustive(&mut rep, &mut drv, &cfg, "u3+plain", &mut stats, 20_000);
+        }
+    }
+    // skipped names next to a new link of their group (the new name cannot be joined: known finding at binary level)
+    {
+        let mut cfg = vec![WCfg::skip(7, true, OLD_INO), WCfg::skip(7, true, OLD_INO), WCfg::new(7, true)];
+        cfg[2].y_copy = 1;
+        exhaustive(&mut rep, &mut drv, &cfg, "skip+create", &mut stats, 20_000);
+    }
+    // a single-named source whose destination is still linked to another name: the link is broken (88af04c)
+    {
+        let cfg = vec![WCfg::skip(1, false, OLD_INO), WCfg { dst0: Some((OLD_INO, 1)), ..WCfg::update(2, false, false, OLD_INO, 1) }];
+        exhaustive(&mut rep, &mut drv, &cfg, "foreign-plain", &mut stats, 20_000);
+    }
+    // a foreign link and a source that still has several names: written through (known finding)
+    {
+        let cfg = vec![WCfg::skip(1, false, OLD_INO), WCfg::update(2, true, false, OLD_INO, 1), WCfg::update(2, true, false, OLD_INO, 1)];
+        exhaustive(&mut rep, &mut drv, &cfg, "foreign-linked", &mut stats, 20_000);
+        let cfg = vec![WCfg::skip(1, false, OLD_INO), WCfg::update(2, true, false, OLD_INO, 1), WCfg::new(2, true)];
+        exhaustive(&mut rep, &mut drv, &cfg, "foreign-linked+create", &mut stats, 20_000);
+    }
+
     // ---- thorough: 3 workers, 2 groups (and 1 group), pairs of failures ----
     if thorough {
         for (shape, inodes) in [("x3g2", [7u64, 7, 8]), ("x3g1", [7, 7, 7])] {
@@ -698,6 +962,15 @@ pub fn run(tier: &str, seed: u64, driver_path: &str, work: &Path) -> Report {
     }
 
     if thorough {
+        for large in [false, true] {
+            for fs in fault_sets(3, 2) {
+                let mut cfg = vec![WCfg::update(7, true, large, OLD_INO, 1), WCfg::update(7, true, large, OLD_INO, 1), WCfg::update(7, true, large, OLD_INO + 1, 1)];
+                for c in cfg.iter_mut() { c.y_copy = 1; }
+                cfg[1].y_link = 1;
+                apply_faults(&mut cfg, &fs);
+                exhaustive(&mut rep, &mut drv, &cfg, "u3-pairs", &mut stats, 6_000);
+            }
+        }
         // 4 workers in two groups of two, every single failure; three yield scripts for 2 workers x pairs
         for fs in fault_sets(4, 1) {
             let mut cfg: Vec<WCfg> = [7u64, 7, 8, 8].iter().map(|i| WCfg::new(*i, true)).collect();
@@ -722,9 +995,29 @@ pub fn run(tier: &str, seed: u64, driver_path: &str, work: &Path) -> Report {
         let ngroups = rng.range(1, 3);
         let mut cfg: Vec<WCfg> = Vec::new();
         let faulty = !rng.chance(1, 3);
+        // per group: how its names are found in the destination
+        // 0 all new | 1 all updated, one inode | 2 all updated, separate files | 3 up to date (skipped) + new names
+        // 4 updated (one inode) + new names
+        let modes: Vec<u64> = (0..ngroups).map(|_| rng.below(5)).collect();
+        let larges: Vec<bool> = (0..ngroups).map(|_| rng.chance(1, 2)).collect();
+        let mut first_of_group = vec![true; ngroups as usize];
         for w in 0..n {
             let plain = rng.chance(1, 6);
-            let mut c = if plain { WCfg::new(100 + w as u64, false) } else { WCfg::new(7 + rng.below(ngroups), true) };
+            let mut c = if plain {
+                if rng.chance(1, 2) { WCfg::new(200 + w as u64, false) } else { WCfg::update(200 + w as u64, false, rng.chance(1, 2), OLD_INO + 50 + w as u64, 1) }
+            } else {
+                let g = rng.below(ngroups) as usize;
+                let ino = 7 + g as u64;
+                let first = first_of_group[g];
+                first_of_group[g] = false;
+                match modes[g] {
+                    0 => WCfg::new(ino, true),
+                    1 => WCfg::update(ino, true, larges[g], OLD_INO + g as u64, 1),
+                    2 => WCfg::update(ino, true, larges[g], OLD_INO + 10 + w as u64, 1),
+                    3 => if first || rng.chance(1, 2) { WCfg::skip(ino, true, OLD_INO + g as u64) } else { WCfg::new(ino, true) },
+                    _ => if first || rng.chance(1, 2) { WCfg::update(ino, true, larges[g], OLD_INO + g as u64, 1) } else { WCfg::new(ino, true) },
+                }
+            };
             c.y_mkdir = rng.below(3) as u32; c.y_copy = rng.below(3) as u32; c.y_link = rng.below(3) as u32;
             if faulty { c.f_mkdir = rng.chance(1, 8); c.f_copy = rng.chance(1, 5); c.f_link = rng.chance(1, 6); }
             cfg.push(c);
